@@ -37,7 +37,7 @@ impl Deserialize for ConstrPlutusData {
                         (|| -> Result<_, DeserializeError> { Ok(PlutusList::deserialize(raw)?) })()
                             .map_err(|e| e.annotate("datas"))?;
                     match len {
-                        cbor_event::Len::Len(_) => (),
+                        cbor_event::Len::Len(_) => read_len.finish()?,
                         cbor_event::Len::Indefinite => match raw.special()? {
                             CBORSpecial::Break => (),
                             _ => return Err(DeserializeFailure::EndingBreakMissing.into()),
